@@ -77,6 +77,8 @@ class Exec:
             return Sid(c["s"])
         if k == "sid_kw":
             return Sid(sid=c["s"])
+        if k == "sid_of_sid":
+            return Sid(Sid(c["s"]))
         if k == "sid_fields":
             return Sid(fields=dict(c["f"]))
         if k == "sid_query":
